@@ -6,7 +6,7 @@ from runner import Case, CaseSet
 ID = 'C20'
 OBLIGATIONS = ['Props/C20.v', 'Props/Tie/html_tie.v']
 RULE = ('sequences of lengths 1, 9, 10, 11, 49, 50, 51, 101 and random (<= 130) x histories of 1..5 palette updates '
-        '(valid random; one key missing; one invalid colour; capitalised colour; extra keys; non-dict) each followed by a '
+        '(valid random; one key missing; one invalid colour; capitalised colour; extra keys; non-dict) the caller re-using and editing ONE dict object between calls, each followed by a '
         'rendering compared byte for byte; non-trivial = distinct (sequence, history) with >= 1 accepted update')
 TRUSTED = ['palette dictionaries canonicalised to association lists of printable strings (other keys/values become "??")']
 ASSUMPTIONS = ['colour names are compared case-sensitively (as the code does)']
@@ -50,11 +50,29 @@ def _hist(args):
     seq, ups = args
 
     def f():
+        import copy
         o = SP(seq)
         out = [o.get_HTMLColorString()]
+        shared = None            # the caller keeps ONE dict object and edits it in place between calls
         for d in ups:
-            st, _ = call(o.set_HTMLColorResiduePalette, d)
-            out.append((st == 'ok', st, o.get_HTMLColorString()))
+            if isinstance(d, dict):
+                if shared is None:
+                    shared = dict(d)
+                else:
+                    shared.clear()
+                    shared.update(d)
+                arg = shared
+            else:
+                arg = d
+            st, _ = call(o.set_HTMLColorResiduePalette, arg)
+            st_r, html = call(o.get_HTMLColorString)
+            out.append((st == 'ok', st if st_r == 'ok' else 'render-' + st_r, html if st_r == 'ok' else ''))
+        # the caller's later edits of its own dict must not reach the object either
+        if shared is not None:
+            before = o.get_HTMLColorString()
+            shared.clear()
+            if call(o.get_HTMLColorString) != ('ok', before):
+                out.append((False, 'aliased-caller-dict', ''))
         return out
     return call(f, seconds=60)
 
@@ -69,7 +87,7 @@ def build(ctx):
     for (s, ups), (st, v) in zip(jobs, res):
         d = {'sequence': s, 'updates': [u if isinstance(u, dict) else repr(u) for u in ups],
              'impl': [st, v if st != 'ok' else [v[0][:120]] + [[a, b, h[:80]] for a, b, h in v[1:]]]}
-        if st != 'ok' or any(b == 'timeout' for _, b, _ in v[1:]):
+        if st != 'ok' or any(b == 'timeout' or b.startswith('render-') or b == 'aliased-caller-dict' for _, b, _ in v[1:]):
             ctx.direct_failures.append(d)
             continue
         try:
